@@ -189,7 +189,7 @@ func NewRootConfig(
 				// the koanf project would appreciate a PR to add an environment
 				// parser:
 				if strings.ToLower(value) == "true" || strings.ToLower(value) == "false" {
-					valueAsBool, err := strconv.ParseBool(value)
+					valueAsBool, err := strconv.ParseBool(strings.ToLower(value))
 					if err != nil {
 						panic(err)
 					}
